@@ -221,3 +221,36 @@ def save_and_load_store(ctx, key, world, have_cell=True):
         given["top"] = world.top
     ret = mk(rel).run_fn(loader, **given)
     return ret if isinstance(ret, Obj) else (made[-1] if made else None)
+
+
+def save_and_load_xdr(ctx, key, world, have_cell=True):
+    """save_xtc / save_trr followed by load_xtc / load_trr: the Cython file class is a model object (sa/xdrmodel.py) whose write / _write / read / _read /
+    read_as_traj are evaluated from the desugared source on a model XDR file.  -> the Trajectory object the loader builds"""
+    from . import xdrmodel as X
+    rel, cls = F.rel_cls(key)
+    root = W.new_root()
+    made = []
+    traj = model_trajectory(world, have_cell)
+    xf = X.XdrFile(key)
+
+    def mkfile(ev, call):
+        a = [ev.ex(x) for x in call.args]
+        kw = {k.arg: ev.ex(k.value) for k in call.keywords}
+        mode = a[1] if len(a) > 1 else kw.get("mode", "r")
+        xf.pos = 0
+        return X.file_object(ctx, key, xf, mode, n_atoms=world.n_atoms)
+    disk = Disk()
+
+    def mk(relx):
+        ts = evaluator(ctx, relx, disk, root, made)
+        ts.models = dict(ts.models, **X.models(key, xf))
+        ts.models["in_units_of"] = in_units_of
+        ts.models[cls] = mkfile
+        ts.models["os.fspath"] = lambda ev, c: ev.ex(c.args[0])
+        ts.module_env = dict(ts.module_env, **X.MODULE_ENV)
+        ts.module_env[cls] = Obj(distance_unit="nanometers")
+        return ts
+    mk(TRAJ).run_fn(ctx.py.func(TRAJ, "Trajectory.save_" + key), self=traj, filename="FILE")
+    loader = ctx.py.func(rel, "load_" + key)
+    ret = mk(rel).run_fn(loader, filename="FILE", top=world.top)
+    return (ret if isinstance(ret, Obj) else (made[-1] if made else None)), xf
